@@ -103,7 +103,7 @@ func runServerTraces(c *Ctx, what string) {
 		}
 		depth := []int{6, 16, 40}[int(seed>>8)%3]
 		gated := k.reqServer && i%4 != 3
-		prog := pgGenProgram(rand.New(rand.NewSource(seed)), pgGenOpt{reqServer: k.reqServer, syncOpens: seed>>5&1 == 0, depth: depth, maxTx: k.maxTx, bigIO: what == "al" && i%5 == 0})
+		prog := pgGenProgram(rand.New(rand.NewSource(seed)), pgGenOpt{reqServer: k.reqServer, syncOpens: seed>>5&1 == 0, depth: depth, maxTx: k.maxTx, bigIO: what == "al" && i%5 == 0, fewIDs: seed>>6&3 == 0})
 		hub := newPgHub()
 		o := pgInstOpt{reqServer: k.reqServer, alloc: k.alloc, maxTx: k.maxTx, hub: hub}
 		var g *pgGate
